@@ -5,7 +5,7 @@ application thread, so the observable states are exactly the prefixes of the
 store sequences of constructor, SetHandler and destructor - finite objects that
 a typestate run over the CFG enumerates completely (DESIGN 4/C15).
 """
-from ..cfg import Facts, kids, strip, walk, cv, render, short_loc, call_args
+from ..cfg import reach_calls, Facts, kids, strip, walk, cv, render, short_loc, call_args
 from ..facts import export_many, AnalysisBroken
 from .. import units
 
@@ -111,7 +111,7 @@ def accesses(f):
 
 def run(rep, ctx):
     repo = ctx["repo"]
-    jobs = [dict(unit="src/solver.cc", fn=[SH + "::.*"], repo=repo,
+    jobs = [dict(unit="src/solver.cc", fn=[SH + "::.*"], repo=repo, closure=2,
                  var=[SH + "::.*"], rec=[SH]),
             dict(unit="solvers/visitor/main.cc", fn=[r"mp::BackendApp::.*", SH + "::.*"],
                  rec=[r"mp::BackendApp", SH], repo=repo),
@@ -265,8 +265,9 @@ def run(rep, ctx):
         for n in sigs:
             p3.check(h.cfg.dominates(inc, n), "inc-before-rearm", short_loc(n.get("l")),
                      "++stop_ dominates std::signal re-arming")
-        p3.check(len(sigs) >= 1 and all(render(call_args(s)[0]) == "sig" and
-                                        render(call_args(s)[1]) == "HandleSigInt" for s in sigs),
+        own_sig = h.params[0]["declId"] if h.params else None
+        p3.check(len(sigs) >= 1 and all(strip(call_args(s)[0]).get("declId") == own_sig and
+                                        render(call_args(s)[1]).split("::")[-1] == "HandleSigInt" for s in sigs),
                  "rearm-same-signal", short_loc(h.loc), "handler re-arms signal(sig, HandleSigInt)")
         # every path that does not _exit executes the increment
         w = h.cfg.path_avoiding(None, "exit", [inc["i"]] + [e["i"] for e in exits], from_entry=True)
@@ -318,15 +319,24 @@ def run(rep, ctx):
                   "in the constructor every store read by the handler and set_interrupter(this) "
                   "precede the first std::signal installation", floor=4)
     c = fs["SignalHandler"]
-    inst = [n for n in c.walk() if n["k"] == "CallExpr" and n.get("callee") in ("signal", "std::signal")]
+    # installations made by the constructor itself or by a helper it calls (arguments resolved into the constructor's terms)
+    reached = list(reach_calls(F, c, lambda n: n["k"] == "CallExpr" and n.get("callee") in ("signal", "std::signal")))
+    inst = []
+    for anchor, call, res in reached:
+        if anchor not in inst:
+            inst.append(anchor)
     if not inst:
         raise AnalysisBroken("no std::signal call in the SignalHandler constructor")
-    for s in inst:
-        a = call_args(s)
-        p4.check(render(a[1]) == "HandleSigInt" and cv(a[0]) in (2, 15),
-                 "installs|%s" % render(a[0]), short_loc(s.get("l")),
-                 "signal(%s, %s)" % (render(a[0]), render(a[1])))
-    p4.check({cv(call_args(s)[0]) for s in inst} >= {2, 15}, "installs-SIGINT-and-SIGTERM",
+    signos = set()
+    for anchor, call, res in reached:
+        a = call_args(call)
+        hd = render(res(a[1]))
+        sg = cv(res(a[0]))
+        signos.add(sg)
+        p4.check(hd.split("::")[-1] == "HandleSigInt" and sg in (2, 15),
+                 "installs|%s" % render(a[0]), short_loc(call.get("l")),
+                 "signal(%s, %s)" % (render(a[0]), hd))
+    p4.check(signos >= {2, 15}, "installs-SIGINT-and-SIGTERM",
              short_loc(c.loc), "both SIGINT(2) and SIGTERM(15) are installed")
     pre = [(x[0], "%s = %s" % (x[1], render(x[3]))) for x in acc["SignalHandler"] if x[2] == "store"]
     for n in c.calls(name="set_interrupter"):
